@@ -562,6 +562,12 @@ func (m *Monitor) respAllocate(r *mReq, msg *stun.Message, ok bool, code int, I 
 			m.v([]string{"C04", "C19"}, "cross-talk", kv("what", "allocate-437-without-allocation"),
 				"Allocate from %s answered 437 (allocation mismatch) although that 5-tuple has no allocation: another 5-tuple's allocation was found for it", r.Client)
 		}
+		if def != nil && r.Auth > 0 && def.TID == r.TID && code != 401 && code != 438 {
+			// whether or not the first success response got through, the allocation exists:
+			// its retransmitted request is answered with that success again
+			m.v([]string{"C19"}, "retry-not-idempotent", kv("what", "error", "code", itoa(code)),
+				"retransmitted Allocate (transaction id of the live allocation of %s) answered %d instead of the same success", r.Client, code)
+		}
 		if def != nil && r.Auth > 0 && def.TID != r.TID && code != 437 && code != 401 && code != 438 {
 			m.v([]string{"C19", "C04"}, "second-allocate-not-437", kv("code", itoa(code)),
 				"Allocate on a 5-tuple with a live allocation answered %d", code)
@@ -1171,8 +1177,19 @@ func (m *Monitor) Event(kind, key string) {
 	m.mu.Lock()
 	m.events = append(m.events, evRec{kind, key, now})
 	m.evCount[kind]++
-	if kind == "alloc-deleted" {
+	switch kind {
+	case "alloc-deleted":
 		m.onAllocDeleted(key, now)
+	case "perm-deleted":
+		if f := strings.Split(key, "|"); len(f) == 3 {
+			m.M.GonePerm(f[0], f[1], f[2], now)
+		}
+	case "chan-deleted":
+		if f := strings.Split(key, "|"); len(f) == 4 {
+			var n int
+			fmt.Sscanf(f[3], "%d", &n)
+			m.M.GoneChan(f[0], f[1], f[2], uint16(n), now)
+		}
 	}
 	m.mu.Unlock()
 	m.K.Logf("cb %s %s", kind, key)
